@@ -10,7 +10,7 @@ from .decks import WORLD_SURF
 FAMILIES = ['depth1', 'depth2', 'depth3', 'depth4', 'reuse-diff-tr',
             'reuse-same-tr', 'fill-num', 'fill-inline3', 'fill-inline12',
             'fill-star', 'trcl-only', 'both', 'filler-trcl', 'filler-compl',
-            'clip', 'both-identity-fill', 'mixed']
+            'clip', 'both-identity-fill', 'shared-surface-number', 'mixed']
 
 SLOTS = [(-5.0, -5.0, 0.0), (0.0, -5.0, 0.5), (5.0, -5.0, -0.5),
          (-5.0, 0.0, 0.5), (0.0, 0.0, 0.0), (5.0, 0.0, 0.3),
@@ -259,6 +259,32 @@ def build(rng, family):
                 bld.container(cid, (0.0, 0.0, 0.0), fill, trcl=trcl,
                               at_origin=True)
                 containers.append(cid)
+    elif family == 'shared-surface-number':
+        # the filling universe is cut by the very surface number that bounds
+        # the container; through the fill transformation it is a different
+        # surface in the container's frame
+        for k in range(rng.randint(1, 2)):
+            cid = len(containers) + 1
+            unum = bld.next_u
+            bld.next_u += 1
+            rad = rnd(rng, 1.8, 2.4)
+            deck.surfs.append(M.Surf(cid, 's', list(slots[k]) + [rad]))
+            for j, sign in enumerate((-1, 1), start=1):
+                mat, rho = bld.material()
+                deck.cells.append(M.Cell(100 * unum + j, mat=mat, rho=rho,
+                                         geom=M.S(sign * cid), imp={'n': '1'},
+                                         u=unum))
+            form = rng.choice(['num', 'inline12', 'inline3', 'star'])
+            mot = motion_of_class(rng, 'generic' if form != 'inline3'
+                                  else 'translation')
+            mot = Motion([rnd(rng, 0.8, 1.6) * (1 if rng.random() < 0.5 else -1)
+                          for _ in range(3)], mot.b)
+            fill = bld.fill_of(unum, form, motion=mot)
+            mat, rho = bld.material()
+            deck.cells.append(M.Cell(cid, mat=mat, rho=rho, geom=M.S(-cid),
+                                     imp={'n': '1'}, fill=fill))
+            deck.hints.append(np.array(slots[k], dtype=float))
+            containers.append(cid)
     elif family == 'filler-trcl':
         uni = bld.universe(0, style='plane-sphere')
         # give one filler cell its own TRCL (a pure translation keeps the
